@@ -59,4 +59,4 @@ Definition x_C17_ok (v : val) : val :=
   vbool (ok_hist url_ok_all [] (c17_ops c) (map dec_rout (as_list obs))).
 
 (* direct correspondence stream for the string functions *)
-Definition x_strgo_canon (c : val) : val := VB (canonical_path (as_bytes c)).
+Definition x_C17_canon (c : val) : val := VB (canonical_path (as_bytes c)).
